@@ -84,6 +84,9 @@ def cases(tier):
     for n in (2, 3):
         for level in (1, 2, 3):
             yield {'m': 'rgb', 'n': n, 'level': level}
+            # nearly grey images (channels that differ in the sixth digit) and dark images (all entries ~1e-9, unrelated channels)
+            yield {'m': 'rgb', 'n': n, 'level': level, 'kind': 'tinted'}
+            yield {'m': 'rgb', 'n': n, 'level': level, 'kind': 'dark'}
 
 
 def tt_column_sums(op):
@@ -324,6 +327,13 @@ def run_case(case, seed):
             n, level = case['n'], case['level']
             rng = np.random.default_rng(11 + n)
             mats = [rng.integers(0, 3, (n, n)).astype(float) for _ in range(3)]
+            unit = 1.0
+            if case.get('kind') == 'tinted':
+                base = rng.uniform(0.2, 1.0, (n, n))
+                mats = [base, base * (1 + 2e-6 * rng.uniform(-1, 1, (n, n))), base * (1 + 2e-6 * rng.uniform(-1, 1, (n, n)))]
+            elif case.get('kind') == 'dark':
+                mats = [1e-9 * rng.uniform(0.1, 1.0, (n, n)) for _ in range(3)]
+                unit = 1e-9 ** level
             F = mdl.rgb_fractal(mats[0], mats[1], mats[2], level)
             W = np.zeros((n ** level, n ** level, 3))
             for c in range(3):
@@ -331,7 +341,7 @@ def run_case(case, seed):
                 for _ in range(level - 1):
                     K = np.kron(K, mats[c])
                 W[:, :, c] = K
-            r.close(key + ':kronecker-power', np.asarray(F), W, 1e-12)
+            r.close(key + ':kronecker-power', np.asarray(F) / unit, W / unit, 1e-12)
     # call history shared by every tensor-train constructor: the returned object is the caller's -- it is edited in place (a core
     # scaled, the train truncated to rank one), then the same model is requested again: a fresh object with the model's value
     build = {'co_oxidation': lambda: mdl.co_oxidation(case['order'], case['k'], cyclic=case['cyclic']) if case['order'] <= 3 else None,
